@@ -19,7 +19,47 @@ func init() {
 
 var extremeI64 = []int64{math.MaxInt64, math.MinInt64, math.MaxInt64 - 1, math.MinInt64 + 1, math.MaxInt64 - 800, math.MinInt64 + 800, math.MaxInt32, math.MinInt32, math.MaxInt32 + 1, math.MinInt32 - 1, 1 << 40, -(1 << 40)}
 
+// c20Huge: a slice with more than 2^32 digits (226 050 913 words: 1.8 GB of address space, untouched zero pages until the
+// library moves the words) on a precision-0 receiver. The precision becomes MaxPrec, 52 digits are cut off: the stored
+// value must fit its precision and say that it is inexact. One case per run; the value is judged by its canonical form
+// and accuracy only (the exact digits are a 1 followed by zeros and a final 7).
+func c20Huge(c *hx.Ctx, r *hx.RNG) {
+	n := (1<<32)/19 + 2
+	mode := r.Mode()
+	what := fmt.Sprintf("SetBitsExp(%d words: top 10^18, low word 7, zeros in between; exponent 0) on a precision-0 receiver, mode=%s", n, oracle.ModeNames[mode])
+	c.Note(what)
+	w := make([]decimal.Word, n)
+	w[n-1], w[0] = decimal.Word(wb/10), 7
+	z := newRecv(0, mode)
+	pi := hx.Try(func() { z.SetBitsExp(w, 0) })
+	c.Eval(hx.HashStr(what), true, "SetBitsExp/more-than-2^32-digits")
+	if pi != nil {
+		c.Violate("panic", fmt.Sprintf("%s: %s panic %q at %s", what, pi.Class, pi.Text, pi.Stack), "")
+		return
+	}
+	prec, minPrec, acc := z.Prec(), z.MinPrec(), int(z.Acc())
+	if z.IsInf() || z.IsZero() || z.Signbit() {
+		c.Violate("wrong-value", fmt.Sprintf("%s: stored %s", what, z.Text('p', 0)[:40]), "")
+		return
+	}
+	if minPrec > prec {
+		c.Violate("wrong-value", fmt.Sprintf("%s: the receiver has precision %d but holds %d significant digits (not rounded), Acc()=%d", what, prec, minPrec, acc), "")
+		return
+	}
+	wantAcc := -1 // the cut-off part 0...07 is dropped ...
+	if mode == oracle.AwayFromZero || mode == oracle.ToPositiveInf {
+		wantAcc = 1 // ... or the last kept digit is bumped
+	}
+	if acc != wantAcc {
+		c.Violate("wrong-acc", fmt.Sprintf("%s: Acc()=%d, want %d (52 digits were cut off, the last of them a 7)", what, acc, wantAcc), "")
+	}
+}
+
 func c20Case(c *hx.Ctx, r *hx.RNG, idx int64) {
+	if idx%2500000 == 9 {
+		c20Huge(c, r)
+		return
+	}
 	switch k := r.Intn(100); {
 	case k < 45:
 		c20SetBitsExp(c, r)
